@@ -73,7 +73,7 @@ class Core:
     """one generated Lean file: a set of methods reachable from each other"""
 
     def __init__(self, repo, name, sources, ignore=(), effects=None, observers=(), pure=None, records=None, links=None,
-                 consts=None, attr_effects=(), doc="", heap=False, opaque=None, oracles=None, ignore_targets=(), ignore_calls=(), observers_args=(), lists=None, observe_text=(), bases=None, opaque_text=None):
+                 consts=None, attr_effects=(), doc="", heap=False, opaque=None, oracles=None, ignore_targets=(), ignore_calls=(), observers_args=(), lists=None, observe_text=(), bases=None, opaque_text=None, list_calls=None):
         self.repo = repo
         self.name = name
         self.sources = sources  # list of (relative file, class name, [method names])
@@ -105,6 +105,8 @@ class Core:
         # class -> base class (methods a class inherits are looked up there); calls into the world named by their source text
         self.bases = bases or {}
         self.opaque_text = opaque_text or {}
+        # calls whose result is an object list of the world (`paths = self.get_identified_paths_in(npn)`): dotted name -> list name
+        self.list_calls = list_calls or {}
         self.loopn = 0
         self.P = "Py.H." if heap else "Py."          # statement combinators
         self.EV = " env" if heap else ""             # the environment argument of the combinators
@@ -222,7 +224,7 @@ class Core:
         if obj is None:
             return None
         d = dotted(call.func)
-        if ast.unparse(call) in self.observe_text:
+        if ast.unparse(call) in self.observe_text or (d is not None and d in self.list_calls):
             return None
         if d is not None and (d + "()" in self.observers or d in self.effects or d in self.pure or d in self.opaque
                               or d in self.oracles or d in self.observers_args or any(p.search(d) for p in self.ignore)):
@@ -320,6 +322,8 @@ class Core:
                 raise Untranslatable(f"{where()}: use of {e.id}, a value the core's configuration leaves out")
             if e.id in ctx.get("elems", {}):
                 raise Untranslatable(f"{where()}: the loop element {e.id} used as a value")
+            if e.id in ctx.get("locallists", {}):
+                raise Untranslatable(f"{where()}: the object list {e.id} used as a value")
             if e.id in ctx.get("temps", ()):
                 return e.id
             if e.id in locs:
@@ -521,6 +525,10 @@ class Core:
                 if isinstance(node, ast.Name) and isinstance(node.ctx, ast.Store) and node.id not in out \
                         and not any(p.search(node.id) for p in self.ignore_targets):
                     out.append(node.id)
+                # `xs.append(e)` on a local list rebinds the local in the translation
+                if isinstance(node, ast.Call) and isinstance(node.func, ast.Attribute) and node.func.attr == "append" \
+                        and isinstance(node.func.value, ast.Name) and node.func.value.id not in out:
+                    out.append(node.func.value.id)
         return out
 
     def block(self, stmts, k, ctx, ind):
@@ -572,6 +580,14 @@ class Core:
             if name is None:
                 raise Untranslatable(f"{where()}: raise without a class")
             return pad + f"{P}Res.raised {lean_str(name.split('.')[-1])}{EV} effs"
+        if isinstance(s, ast.Assign) and len(s.targets) == 1 and isinstance(s.targets[0], ast.Name) and isinstance(s.value, ast.Call) \
+                and dotted(s.value.func) in self.list_calls:
+            if not self.heap:
+                raise Untranslatable(f"{where()}: object list outside heap mode")
+            for a in list(s.value.args) + [kw.value for kw in s.value.keywords]:
+                self.expr(a, ctx)      # (the arguments must be translatable; the list they select is the world's)
+            ctx.setdefault("locallists", {})[s.targets[0].id] = self.list_calls[dotted(s.value.func)]
+            return self.block(rest, k, ctx, ind)
         if isinstance(s, (ast.Break, ast.Continue)):
             if "loop" not in ctx:
                 raise Untranslatable(f"{where()}: {type(s).__name__} outside a translated loop")
@@ -582,33 +598,44 @@ class Core:
                 return self.block(rest, k, ctx, ind)        # a loop that only logs
             if not self.heap or s.orelse:
                 raise Untranslatable(f"{where()}: for loop (only loops over a configured object list, in heap mode, without else)")
-            it, idxname = s.iter, None
+            it, idxname, fieldnames = s.iter, None, []
             if isinstance(it, ast.Call) and dotted(it.func) == "enumerate" and len(it.args) == 1 and not it.keywords \
                     and isinstance(s.target, ast.Tuple) and len(s.target.elts) == 2 and all(isinstance(x, ast.Name) for x in s.target.elts):
                 idxname, elname, lst = s.target.elts[0].id, s.target.elts[1].id, dotted(it.args[0])
             elif isinstance(s.target, ast.Name):
                 elname, lst = s.target.id, dotted(it)
+            elif isinstance(s.target, ast.Tuple) and all(isinstance(x, ast.Name) for x in s.target.elts):
+                # `for a, b in pairs`: the names are the fields of the element
+                elname, lst = None, dotted(it)
+                fieldnames = [x.id for x in s.target.elts]
             else:
                 raise Untranslatable(f"{where()}: for loop target")
-            if lst not in self.lists:
+            if lst in ctx.get("locallists", {}):
+                full = ctx["locallists"][lst]
+                lst = "local:" + full
+                self.lists.setdefault(lst, {})
+            elif lst not in self.lists:
                 raise Untranslatable(f"{where()}: for loop over {lst or ast.unparse(it)}, which is not a configured object list")
-            full = ctx["prefix"] + lst[4:]
+            else:
+                full = ctx["prefix"] + lst[4:]
             self.loopn += 1
             idx = f"idx{self.loopn}"
-            carried = [v for v in self.assigned(s.body) if v not in (idxname, elname)]
+            carried = [v for v in self.assigned(s.body) if v not in (idxname, elname) and v not in fieldnames]
             for node in ast.walk(s):
-                if isinstance(node, ast.Name) and isinstance(node.ctx, ast.Store) and node.id in (idxname, elname) and node is not s.target \
+                if isinstance(node, ast.Name) and isinstance(node.ctx, ast.Store) and (node.id in (idxname, elname) or node.id in fieldnames) and node is not s.target \
                         and node not in getattr(s.target, "elts", []):
                     raise Untranslatable(f"{where()}: the loop variable {node.id} is assigned in the loop")
             inner = dict(ctx)
-            inner["elems"] = dict(ctx.get("elems", {}), **{elname: (full, lst, idx)})
+            inner["elems"] = dict(ctx.get("elems", {}), **({elname: (full, lst, idx)} if elname else {}))
             inner["loop"] = carried
             unpack = "".join(pad + f"  let v_{v} := Py.nth locs {i}\n" for i, v in enumerate(carried))
             lst_txt = ", ".join(f"v_{v}" for v in carried)
             body = self.block(list(s.body), f"next [{lst_txt}] env effs", inner, ind + 1)
-            ctx.setdefault("tainted", set()).update(x for x in (idxname, elname) if x)
+            ctx.setdefault("tainted", set()).update(x for x in [idxname, elname] + fieldnames if x)
             after = self.block(rest, k, ctx, ind + 1)
             bind_i = pad + f"  let v_{idxname} := Py.V.int {idx}\n" if idxname else ""
+            for kf, fn in enumerate(fieldnames):
+                bind_i += pad + f"  let v_{fn} := env (Py.ikey {lean_str(full)} {idx} {lean_str('[%d]' % kf)})\n"
             return (pad + f"Py.H.forRange (env {lean_str('len(' + full + ')')}) [{lst_txt}] env effs (fun {idx} locs env effs next brk =>\n"
                     + bind_i + unpack + body + ")\n"
                     + pad + "  (fun locs env effs =>\n" + unpack + after + ")")
@@ -683,6 +710,14 @@ class Core:
         if isinstance(s, ast.Expr) and self.elem_call(s.value, ctx) is not None:
             wname, args = self.elem_call(s.value, ctx)
             return (pad + f"Py.H.call ext {lean_str(wname)} [{', '.join(args)}] env effs fun _ env effs =>\n"
+                    + self.block(rest, k, ctx, ind))
+        if isinstance(s, ast.Expr) and isinstance(s.value, ast.Call) and isinstance(s.value.func, ast.Attribute) \
+                and s.value.func.attr == "append" and isinstance(s.value.func.value, ast.Name) \
+                and s.value.func.value.id in ctx["locals"] and len(s.value.args) == 1 and not s.value.keywords:
+            nm = s.value.func.value.id
+            if nm in ctx.get("aliased", ()):
+                raise Untranslatable(f"{where()}: append to {nm}, which has another name")
+            return (pad + f"{P}letv (Py.append_ v_{nm} {self.expr(s.value.args[0], ctx)}){EV} effs fun v_{nm} =>\n"
                     + self.block(rest, k, ctx, ind))
         if isinstance(s, ast.Expr) and isinstance(s.value, ast.Call) and ast.unparse(s.value.func) in self.opaque_text:
             if not self.heap:
